@@ -292,7 +292,7 @@ func runC20(args []string) {
 		locals := make([]*c20Acc, workers)
 		for w := 0; w < workers; w++ {
 			wg.Add(1)
-			locals[w] = &c20Acc{eval: map[string]int{}, mism: map[string]int{}, examples: map[string][]lib.Ev{}}
+			locals[w] = &c20Acc{eval: map[string]int{}, mism: map[string]int{}, examples: map[string][]lib.Ev{}, hows: map[string]map[string]int{}, tabs: tabs}
 			go func(w int) {
 				defer wg.Done()
 				la := locals[w] // private accumulator: no lock contention
@@ -315,6 +315,14 @@ func runC20(args []string) {
 			}
 			for k, v := range la.mism {
 				acc.mism[k] += v
+			}
+			for k, hv := range la.hows {
+				if acc.hows[k] == nil {
+					acc.hows[k] = map[string]int{}
+				}
+				for h, n := range hv {
+					acc.hows[k][h] += n
+				}
 			}
 			for k, v := range la.examples {
 				if len(acc.examples[k]) < 12 {
